@@ -24,7 +24,7 @@ if HERE not in sys.path:
 
 def run(module, call):
     import stix2
-    assert stix2.__file__.startswith("/repo/"), stix2.__file__
+    assert stix2.__file__.startswith(os.environ.get("VERIF_REPO", "/repo") + "/"), stix2.__file__
     mod = importlib.import_module(module)
     ns = dict(vars(mod))
     ns.setdefault("float", float)
